@@ -177,7 +177,7 @@ def device_replay(meta):
              "count": None}]], "push_constant_ranges": [],
             "compute": [{"entry": comp[0].name, "constants": m["map"]} for m in recs[:4]]})
     try:
-        res = core.run_oracle("device", jobs, "c12/device", timeout=1200)
+        res = core.run_oracle("device", jobs, "c12/device", timeout=420, partial_ok=True)
     except core.Inconclusive as ex:
         return {"status": "unavailable", "why": str(ex)[:200]}
     out = {"status": "used", "pipelines": 0, "ok": 0, "errors": {}}
